@@ -485,6 +485,8 @@ fn err_text(e: &io::Error) -> String { format!("{:?}: {e}", e.kind()) }
 /// Runs the readers one after the other on one socket driven by `script`.
 /// The sequence stops at the first error (or un-dispatched header).
 fn exec(rds: &[Rd], stream: &[u8], script: &[Ev]) -> Run {
+    // for the runaway watchdog: which execution this thread is in
+    rpki_verif::note_case(|| format!("readers={} stream={} octets starting {} sched={}", rds.iter().map(|r| r.render()).collect::<Vec<_>>().join("+"), stream.len(), rpki_verif::hex(&stream[..stream.len().min(48)]), render_script(script)));
     SCHED.with(|s| s.borrow().run(async {
         let (sock, ctl) = sock_pair();
         let steps: Arc<Mutex<Vec<Step>>> = Arc::new(Mutex::new(Vec::new()));
@@ -3299,6 +3301,55 @@ fn main() {
     sp.done(true, &format!("{} values x readers x fragmentations into <= 3 chunks ({} for long PDUs)", vals.len(), max_cuts_long + 1));
 
     lap("roundtrip.pdu");
+    //--- (1b) every prefix length x addresses that some layer singles out ------
+    // Round 13: the boundary domain above has the prefix lengths 0, 1, max-1, max and three bit
+    // patterns. Addresses are singled out by *meaning* as well (std::net and text forms treat
+    // IPv4-mapped, IPv4-compatible, NAT64, 6to4, loopback, link-local, multicast, documentation
+    // and private blocks specially; lenient constructors may "normalise" between families).
+    let sp = ctx.space("roundtrip.address_grid",
+        "route origins with EVERY prefix length (0..=32, 0..=128) x addresses singled out by meaning (IPv6: ::, ::1, IPv4-compatible ::a.b.c.d, IPv4-mapped ::ffff:a.b.c.d incl. ::ffff:0:0 and ::ffff:255.255.255.255, ::fffe:..., NAT64 64:ff9b::/96, 6to4 2002::/16, 2001:db8::, fc00::, fe80::, ff02::1, all ones; IPv4: 0.0.0.0, 10/8, 100.64/10, 127.0.0.1, 169.254/16, 172.16/12, 192.0.2.0, 192.168/16, 198.18/15, 224/4, 240/4, 255.255.255.255) masked to the length x max length {the length, the family maximum, the middle} x versions {0, 2} x both actions: written by the library, length field, read back through every reader of the type as a whole and (every fourth value) under every single cut; non-trivial = every value (distinct by construction)");
+    {
+        let v6_bases: [u128; 16] = [0, 1, 0xC000_0201, 0x0A00_0001, 0xFFFF_0000_0000, 0xFFFF_C000_0201, 0xFFFF_FFFF_FFFF, 0xFFFE_C000_0201,
+            (0x0064_ff9bu128 << 96) | 0xC000_0201, (0x2002_c000u128 << 96) | (0x0201u128 << 80), 0x2001_0db8u128 << 96, 0xfc00u128 << 112, 0xfe80u128 << 112,
+            (0xff02u128 << 112) | 1, u128::MAX, (0x2001_0db8u128 << 96) | 0xFFFF_C000_0201];
+        let v4_bases: [u32; 13] = [0, 0x0A00_0001, 0x6440_0001, 0x7F00_0001, 0xA9FE_0001, 0xAC10_0001, 0xC000_0200, 0xC0A8_0101, 0xC612_0001, 0xE000_0001, 0xF000_0001, 0xFFFF_FFFF, 0x0000_FFFF];
+        let mut gvals: Vec<Val> = Vec::new();
+        for v in [0u8, 2] { for fl in [1u8, 0] {
+            for plen in 0..=32u8 {
+                let mask: u32 = if plen == 0 { 0 } else { u32::MAX << (32 - plen) };
+                for mlen in dedup(vec![plen, 32, (plen + 32) / 2]) { for addr in dedup(v4_bases.iter().map(|b| b & mask).collect()) {
+                    gvals.push(Val::V4 { v, flags: fl, plen, mlen, addr, asn: 64496 });
+                } }
+            }
+            for plen in 0..=128u8 {
+                let mask: u128 = if plen == 0 { 0 } else { u128::MAX << (128 - plen) };
+                for mlen in dedup(vec![plen, 128, ((plen as u16 + 128) / 2) as u8]) { for addr in dedup(v6_bases.iter().map(|b| b & mask).collect()) {
+                    gvals.push(Val::V6 { v, flags: fl, plen, mlen, addr, asn: 64496 });
+                } }
+            }
+        } }
+        let accs: Vec<Acc> = gvals.par_iter().enumerate().map(|(i, val)| {
+            let mut acc = Acc::default();
+            let built = rpki_verif::guard(|| { let b = val.build(); let w = b.wire(); (b, w) });
+            let (_, wire) = match built {
+                Ok(x) => x,
+                Err(p) => { acc.fail("C07.rt.no_panic", || format!("pdu={}", val.render()), format!("constructing or writing panics: {p}")); return acc }
+            };
+            let announced = u32::from_be_bytes([wire[4], wire[5], wire[6], wire[7]]) as usize;
+            if announced != wire.len() || wire[0] != val.version() || wire[1] != val.ty().code() {
+                acc.fail("C07.rt.length_field", || format!("pdu={} bytes={}", val.render(), show(&wire)),
+                    format!("header says version {} type {} length {announced}; {} octets were written for version {} type {}", wire[0], wire[1], wire.len(), val.version(), val.ty().code()));
+            }
+            let frs = fragmentations(wire.len(), if i % 4 == 0 { 1 } else { 0 });
+            for rd in readers_for(val.ty()) { for fr in &frs { judge_roundtrip(&mut acc, val, &wire, rd, fr) } }
+            acc
+        }).collect();
+        report(&ctx, &sp, accs);
+        sp.set("values", serde_json::json!(gvals.len()));
+        sp.sample_str(|| gvals.iter().find(|v| matches!(v, Val::V6 { plen: 128, addr, .. } if *addr == 0xFFFF_C000_0201)).map(|v| format!("{} -> {}", v.render(), rpki_verif::guard(|| show(&v.build().wire())).unwrap_or_else(|p| p))).unwrap_or_default());
+        sp.done(true, &format!("{} values x every reader of the type x (whole; every fourth value: every single cut)", gvals.len()));
+    }
+    lap("roundtrip.address_grid");
     //--- (1b) the writer as a dimension ------------------------------------------
     let sp = ctx.space("roundtrip.writer",
         "every value written by the library (type's own write; payload PDUs and end of data also through the Payload / EndOfData enums) into the scripted socket, with and without native vectored writes, under: no limit; every write call limited to c octets; only the first write call limited to c octets (c in 1,2,7,11,12,31,32,33); back-pressure after k octets then release (k in 0,1,7,11,12,31,32,33,len-1); the octets that reach the socket must equal the Vec rendering, their number must equal the length field, and they must read back as the value; non-trivial = writes that went out in >= 2 pieces (measured)");
